@@ -13,7 +13,7 @@ from pycaption import CaptionSet, CaptionList, Caption, CaptionNode
 
 LANGS = ["en-US", "fr", "de"]
 WORDS = ["alpha", "beta", "gamma", "delta", "epsilon", "zeta", "eta", "theta"]
-KIND = {"text": 1, "style": 2, "ustyle": 2, "break": 3}   # ustyle: a STYLE node whose content is {} (no span attributes)
+KIND = {"text": 1, "style": 2, "ustyle": 4, "break": 3}   # ustyle: a STYLE node whose content is {} (no span attributes)
 
 
 def tup(x):
@@ -46,6 +46,9 @@ def build(acs):
         lay = None if lg["layout"] is None else geom.mk_layout(tup(lg["layout"]))
         d[lg["name"]] = CaptionList(caps, layout_info=lay)
     g = None if acs["global"] is None else geom.mk_layout(tup(acs["global"]))
+    if acs.get("styles"):
+        # a style class: SAMIWriter writes the set-level padding as margins of its block
+        return CaptionSet(d, styles={"c1": {"color": "white"}}, layout_info=g)
     return CaptionSet(d, layout_info=g)
 
 
@@ -101,7 +104,8 @@ def gen_layout(rng, units, p_none=0.35, pct_safe=False, with_align=True):
 
 
 def gen_capset(rng, units, nlangs=(1, 2), ncaps=(1, 3), levels=("lang", "cap", "node"), p_level=0.5,
-               span_layouts=True, bare_text_layouts=False, with_global=False, pool=None):
+               span_layouts=True, bare_text_layouts=False, with_global=False, pool=None, break_layouts=False,
+               style_only=False):
     """pool: optional list of layouts to draw from (makes equal layouts at several places frequent)"""
     def lay():
         if pool and rng.random() < 0.6:
@@ -117,7 +121,7 @@ def gen_capset(rng, units, nlangs=(1, 2), ncaps=(1, 3), levels=("lang", "cap", "
             nlines = rng.randint(1, 3)
             for j in range(nlines):
                 if j:
-                    nodes.append(["break", None])
+                    nodes.append(["break", lay() if break_layouts and rng.random() < 0.3 else None])
                 word = WORDS[wi % len(WORDS)] + str(wi)
                 wi += 1
                 r = rng.random()
@@ -136,6 +140,9 @@ def gen_capset(rng, units, nlangs=(1, 2), ncaps=(1, 3), levels=("lang", "cap", "
                     nodes.append(["text", word, lay()])
                 else:
                     nodes.append(["text", word, cl if rng.random() < 0.5 else None])
+            if style_only and rng.random() < 0.15:
+                # a caption of STYLE nodes only (no text): WebVTT still writes a cue for it
+                nodes = [["style", True, None], ["style", False, None]]
             lg["caps"].append({"layout": cl, "nodes": nodes})
         acs["langs"].append(lg)
     return acs
